@@ -14,7 +14,8 @@ for d in sorted(glob.glob("/verif/seeded/C??-?")):
         r = json.load(open(f))
         for k, v in r["checks"].items():
             res.setdefault(k, []).append("%s: %s%s" % (r["tier"], "DETECTED " + ",".join(v["clauses"])[:70] if v["exit"] == 1 and v["violations"]
-                                                        else ("missed" if v["exit"] == 0 else "exit %s" % v["exit"]), ""))
+                                                        else ("missed" if v["exit"] == 0 else "exit %s" % v["exit"]),
+                                                        " (overlay)" if r.get("via") else ""))
     verdict = "; ".join("%s %s" % (k, " / ".join(v)) for k, v in res.items()) or "not run"
     summ = m.get("summary", "").replace("|", "/").replace("\n", " ")
     rows.append("| %s | %s | %s | %s |" % (os.path.basename(d), summ[:230], conf.split(" (")[0], verdict))
